@@ -154,7 +154,7 @@ func checkCmd(args []string) {
 	e := newEngine(*repo)
 	e.opts = Options{TimeoutMs: 6000, Verbose: *verbose, Tier: *tier, DumpDir: *dump}
 	if *tier == "thorough" {
-		e.opts.TimeoutMs = 30000
+		e.opts.TimeoutMs = 15000
 	} else {
 		// an obligation the full context leaves undecided gets a second query on the quantifier-free part of the
 		// context: a model found there is a candidate counterexample for the replay (quick tier: only obligations
